@@ -27,6 +27,7 @@ import Mathlib.Algebra.Order.Field.Rat
 import Mathlib.Algebra.Order.Archimedean.Basic
 import Mathlib.Tactic.NormNum
 import LnnVerif.Lemmas.PendLemmas
+import LnnVerif.Lemmas.FolFix
 
 set_option linter.unusedSectionVars false
 
@@ -422,5 +423,64 @@ theorem C06_pInfer_is_fInfer {kb : FKB ι α} (h : NoQuantParent kb) (nodes : Li
   pInfer_of_noParent h nodes up down eps fuel s
 
 end pend
+
+/-! ### first-order knowledge bases: a converged `infer()` leaves a genuine fixpoint
+
+`fInfer` converges when a sweep reports at most `eps` AND created no grounding. Hypotheses: world
+defaults and the start state in [0,1]; every grounding stored once (preserved by every call);
+the registered formulae `nodes` cover the scheduled formulae and their operands; and
+`FolFix.RunExact`: no sweep of THIS run reports an amount in (0, eps] — the formal content of
+"exactly representable bounds" (on dyadic data every amount is 0 or at least the grid step, which
+is coarser than the code's 1e-7; with `eps ≤ 0` it holds outright). Then, in the returned state,
+every scheduled upward or downward call — alone, in sweep order, in any order and number — reports
+0 and leaves every table structurally identical, and a second `infer()` takes one sweep, reports 0,
+converges, and returns the same tables. -/
+
+section fol
+
+variable {ι : Type} [DecidableEq ι] {α : Type} [Field α] [LinearOrder α] [IsStrictOrderedRing α]
+
+open FolAmount FolFix
+
+/-- every scheduled call is the identity on the converged state and reports 0 -/
+theorem C06_fol_fixpoint (kb : FKB ι α) (hw : FolAmount.WorldsInUnit kb) (nodes : List ι)
+    (up down : List (FCall ι)) (eps : α) (fuel : Nat) (s : FState ι α) (hs : SInUnit s) (hn : SNodup s)
+    (hconv : (fInfer kb nodes up down eps fuel s).converged = true)
+    (hexact : RunExact kb up down eps s)
+    (hcov : ∀ c ∈ up ++ down, cnode c ∈ nodes ∧ ∀ j ∈ (kb (cnode c)).ops, j ∈ nodes) :
+    ∀ c ∈ up ++ down, CallFix kb c (fInfer kb nodes up down eps fuel s).state :=
+  (fInfer_converged_callFix' kb nodes up down eps hw fuel s hs hn hconv hexact hcov).2.2.2
+
+/-- … so is any list of scheduled calls, in any order and number -/
+theorem C06_fol_any_schedule (kb : FKB ι α) (hw : FolAmount.WorldsInUnit kb) (nodes : List ι)
+    (up down : List (FCall ι)) (eps : α) (fuel : Nat) (s : FState ι α) (hs : SInUnit s) (hn : SNodup s)
+    (hconv : (fInfer kb nodes up down eps fuel s).converged = true)
+    (hexact : RunExact kb up down eps s)
+    (hcov : ∀ c ∈ up ++ down, cnode c ∈ nodes ∧ ∀ j ∈ (kb (cnode c)).ops, j ∈ nodes)
+    (cs' : List (FCall ι)) (hsub : ∀ c ∈ cs', c ∈ up ++ down) :
+    (runFCalls kb cs' (fInfer kb nodes up down eps fuel s).state).2 = 0 ∧
+      ∀ k, (runFCalls kb cs' (fInfer kb nodes up down eps fuel s).state).1.get k =
+        (fInfer kb nodes up down eps fuel s).state.get k :=
+  fInfer_converged_anyOrder' kb nodes up down eps hw fuel s hs hn hconv hexact hcov cs' hsub
+
+/-- calling `infer()` again: one sweep, zero updates, converged, same tables -/
+theorem C06_fol_infer_again (kb : FKB ι α) (hw : FolAmount.WorldsInUnit kb) (nodes : List ι)
+    (up down : List (FCall ι)) (eps : α) (fuel : Nat) (s : FState ι α) (hs : SInUnit s) (hn : SNodup s)
+    (hconv : (fInfer kb nodes up down eps fuel s).converged = true)
+    (hexact : RunExact kb up down eps s)
+    (hcov : ∀ c ∈ up ++ down, cnode c ∈ nodes ∧ ∀ j ∈ (kb (cnode c)).ops, j ∈ nodes) (fuel' : Nat) :
+    (fInfer kb nodes up down eps (fuel' + 1) (fInfer kb nodes up down eps fuel s).state).steps = 1 ∧
+    (fInfer kb nodes up down eps (fuel' + 1) (fInfer kb nodes up down eps fuel s).state).total = 0 ∧
+    (fInfer kb nodes up down eps (fuel' + 1) (fInfer kb nodes up down eps fuel s).state).converged = true ∧
+    ∀ k, (fInfer kb nodes up down eps (fuel' + 1) (fInfer kb nodes up down eps fuel s).state).state.get k =
+      (fInfer kb nodes up down eps fuel s).state.get k :=
+  fInfer_converged_again' kb nodes up down eps hw fuel s hs hn hconv hexact hcov fuel'
+
+/-- `RunExact` holds outright for a threshold ≤ 0 -/
+theorem C06_fol_runExact_of_eps_zero (kb : FKB ι α) (up down : List (FCall ι)) (eps : α)
+    (s : FState ι α) (heps : eps ≤ 0) : RunExact kb up down eps s :=
+  runExact_of_eps_zero kb up down eps s heps
+
+end fol
 
 end LNN
